@@ -12,6 +12,25 @@ EXEC_TRUST = ("Trusted base: TLC 1.8.0, spec/JetExec.tla + JetProg.tla (the inte
               "Go data kinds beyond the harness catalogue are not explored.")
 
 CHECKS = {
+ "C01": dict(
+   technique="TLA+ JetExec with output chunks tagged V (escaped once by the Set escaper) / R:<stage> (SafeWriter) / T (literal text), "
+             "try buffers copied without re-escaping, model-checked by TLC over Gen_C01; every behaviour replayed under three Set "
+             "escapers (bracketing custom SafeWriter, default HTML, none)",
+   text="TLC enumerates a rendering action with each final pipeline stage x 11 value shapes with HTML-special bytes x every wrapper "
+        "path up to the bound (if, range, block, yielded content, include, exec, try that commits, try that fails later, catch "
+        "body) and computes the tagged output. The real library must produce: each data chunk bracketed exactly once by the "
+        "custom escaper and literal text never; with the default escaper exactly template.HTMLEscape of the printed form; with "
+        "no escaper the printed form; SafeWriter stages their own escaping exactly once.",
+   design_ref="DESIGN.md §5 C01", note=EXEC_TRUST + " Printed forms of the catalogue values are stated in the harness (fastprinter/fmt); values implementing Renderer are not explored."),
+ "C18": dict(
+   technique="TLA+ JetExec.DoApi (Let/Set/SetOrLet/LetGlobal/Resolve/Context/YieldBlock as actions on the scope heap of the call "
+             "site) model-checked by TLC over Gen_C18; behaviours replayed with harness-provided jet.Funcs calling the real Runtime "
+             "API; Arguments view decided with the call normal form (JetCall)",
+   text="TLC enumerates sequences of Runtime API calls interleaved with template-level := and = at every call site up to the "
+        "bound and computes what later reads of every name, '.', and a yielded block render; the real Runtime methods, called "
+        "from custom functions, must leave the interpreter rendering the same bytes. Arguments.Get/NumOfArguments/IsSet/ParseInto "
+        "are compared with the argument vector of the specification's normal form for piped and slot-placed values.",
+   design_ref="DESIGN.md §5 C18", note=EXEC_TRUST),
  "C05": dict(
    technique="TLA+ JetExec (DoIf/IfExit, DoRange/RangeStep with the binding table per ranger kind and variable form) model-checked "
              "by TLC over Gen_C05; every behaviour replayed on the real interpreter with a Go data catalogue for condition values",
